@@ -17,7 +17,7 @@ from luqum import tree as T
 # ------------------------------------------------------------------------------------------------ configuration
 def nested_paths(spec, prefix=()):
     """full dotted paths of the nested CONTAINERS declared by a nested_fields spec: every key whose value lists sub
-    fields (a non-empty dict or list), at any depth"""
+    fields (a non-empty dict or list), at any depth, and every top-level key ("keys are names of nested fields")"""
     out = set()
     if isinstance(spec, dict):
         for k, v in spec.items():
@@ -25,6 +25,8 @@ def nested_paths(spec, prefix=()):
             if v:
                 out.add(".".join(p))
                 out |= nested_paths(v, p)
+            elif not prefix:
+                out.add(".".join(p))          # the keys of the spec itself are nested fields, also when no sub field is listed for them
     return out
 
 
